@@ -84,7 +84,7 @@ inline DocCase decode_doc(Src &s, const DocOpts &o) {
         case 4: levels = c.depth > 1 ? c.depth - 1 : 1; break;
         default: levels = 1 + s.u8() % 12; break;
         }
-        c.tree = gen_chain(s, levels, c.array_root, s.u8() % 4);
+        c.tree = gen_chain(s, levels, c.array_root, s.u8() % 8);
         c.have_tree = true;
         c.doc = ref::encode(c.tree);
         if (o.allow_invalid && (s.u8() % 4 == 0)) c.muts.push_back(mutate_bytes(c.doc, s));
